@@ -4,8 +4,9 @@ Writes /verif/seeded/<seed-id>/{patch.diff,demo.rs,NOTES.md,meta.json}."""
 import json, os, re, shutil, subprocess, sys, time
 
 VERIF = "/verif"
-WT = "/tmp/seedchk/wt"
-TARGET = "/tmp/seedchk/target"
+BASE = os.environ.get("SEEDCHK_DIR", "/tmp/seedchk")
+WT = BASE + "/wt"
+TARGET = BASE + "/target"
 
 
 def sh(cmd, cwd=None, env=None, timeout=3600):
@@ -42,7 +43,12 @@ def tests(filter_=None):
 def main():
     seed_dir, sid, props = sys.argv[1], sys.argv[2], sys.argv[3:]
     out_dir = os.path.join(VERIF, "seeded", sid)
+    mp = os.path.join(out_dir, "meta.json")
+    if os.path.exists(mp) and not os.environ.get("SEED_FORCE"):
+        print("skip (already done or in progress)", sid)
+        return
     os.makedirs(out_dir, exist_ok=True)
+    json.dump({"id": sid, "in_progress": True}, open(mp, "w"))
     for f in ("patch.diff", "demo.rs", "NOTES.md"):
         if os.path.exists(os.path.join(seed_dir, f)):
             shutil.copy(os.path.join(seed_dir, f), os.path.join(out_dir, f))
@@ -89,7 +95,7 @@ def main():
         meta["checks"] = {}
         for p in props:
             t0 = time.time()
-            env = {"VERIF_REPO": WT, "VERIF_EVIDENCE_DIR": "/tmp/seedchk/evidence", "VERIF_REPLAY_DIR": "/tmp/seedchk/replays/" + sid,
+            env = {"VERIF_REPO": WT, "VERIF_EVIDENCE_DIR": BASE + "/evidence", "VERIF_REPLAY_DIR": BASE + "/replays/" + sid,
                    "VERIF_JOBS": os.environ.get("VERIF_JOBS", "8")}
             e = dict(os.environ); e.update(env)
             pr = subprocess.run([os.path.join(VERIF, "check"), p, "--tier", "quick"], cwd=VERIF, env=e, stdout=subprocess.PIPE, stderr=subprocess.PIPE, text=True, timeout=7200)
